@@ -71,10 +71,6 @@ theorem fk_accounts (fkv tkv : List (Str × Tree)) (vtbl : List (List Script)) (
     (toIdx r (fkScript fkv tkv vtbl).subs).Perm (ixRange tkv.length) :=
   ⟨fkScript_fromIdx fkv tkv vtbl, fkScript_toIdx r fkv tkv vtbl hf ht⟩
 
--- [audit] non-vacuity: the two `Nodup` hypotheses of `fk_accounts` hold for the concrete mappings used below
-example : (keys [([97], Tree.leaf .null), ([98], .leaf .null), ([99], .leaf .null)]).Nodup ∧
-    (keys [([98], Tree.leaf .null), ([100], .leaf .null), ([97], .leaf .null)]).Nodup := by decide
-
 /-- MultiSetEdit, from side: every pair of the first mapping exactly once — for every oracle, no hypothesis -/
 theorem ms_accounts_from (amk : Bool) (orc : Oracle) (fp tp : List Nat) (fkv tkv : List (Str × Tree))
     (vtbl : List (List Script)) :
@@ -128,11 +124,6 @@ theorem pick_ixRange {α : Type} (l : List α) : pick l (ixRange l.length) = l :
   simp only [pick, ixRange, List.filterMap_map]
   exact filterMap_getElem?_range l
 
--- [audit] NOTE on the statement below: it is about ONE node (a, b, k, subs) under the hypothesis `LocalAcc a b k subs`;
--- `keepFrom` re-reads `a.children` through the indices `fromIdx subs`, so the conclusion is `LocalAcc` restated through
--- `pick` (`pick l (ixRange l.length) = l`).  There is no recursive "discard everything inserted" function on whole
--- documents and no theorem composing this along `Walk`; "at every level" is obtained only by combining it by hand with
--- `script_accounts` (as the comment of `keep_root` says).
 /-- every compound edit of the script, at every level, keeps exactly the children of the first node when the
     insertions are discarded and exactly the children of the second when the removals are discarded
     (in order for sequences, as multisets for mappings) -/
@@ -161,29 +152,6 @@ theorem keep_reproduces {a b : Nd} {k : Kind} {subs : List Script} (h : LocalAcc
 theorem keep_root (o : Opts) (orc : Oracle) (fp tp : List Nat) (f t : Tree) (hf : f.KeysDistinct) (ht : t.KeysDistinct) :
     LocalAcc (.tree f) (.tree t) (edits o orc fp tp f t).kind (edits o orc fp tp f t).subs :=
   ((walk_iff _ _ _).1 (script_accounts o orc fp tp f t hf ht)).1
-
--- [audit] non-vacuity of `keep_reproduces` / `keep_root` / `script_accounts`: a concrete, non-trivial pair of lists
--- ([null, 1, 2] → [1, 3, 2]); (1) a hand-written sub-edit list satisfying `LocalAcc`, (2) the model's own script:
--- its root IS a compound edit (`hasSubs`), so the premise `hk` is satisfiable on `edits` itself.
-def auditF : Tree := .list [.leaf .null, .leaf (.int 1), .leaf (.int 2)]
-def auditT : Tree := .list [.leaf (.int 1), .leaf (.int 3), .leaf (.int 2)]
-def auditSubs : List Script :=
-  [mkRemove 0 0 1, (mkMatch 0).relabel (.at 1) (.at 0), mkInsert 1 1 1, (mkMatch 0).relabel (.at 2) (.at 2)]
--- [audit] non-vacuity
-theorem audit_localAcc : LocalAcc (.tree auditF) (.tree auditT) .ed auditSubs := by
-  intro _; exact ⟨trivial, by decide⟩
--- [audit] non-vacuity
-example : keepFrom (.tree auditF) auditSubs = (Nd.tree auditF).children ∧
-    keepTo (.tree auditF) (.tree auditT) auditSubs = (Nd.tree auditT).children :=
-  (keep_reproduces audit_localAcc rfl).1 rfl
--- [audit] non-vacuity
-theorem audit_hasSubs : (edits {} [] [] [] auditF auditT).kind.hasSubs = true := by
-  unfold auditF auditT
-  rw [edits_list_list]; simp [eqL, Tree.eq, Scalar.eq, edScript, Kind.hasSubs]
--- [audit] non-vacuity
-example : keepFrom (.tree auditF) (edits {} [] [] [] auditF auditT).subs = (Nd.tree auditF).children :=
-  ((keep_reproduces (keep_root {} [] [] [] auditF auditT (by decide) (by decide)) audit_hasSubs).1
-    (by unfold auditF auditT; rw [edits_list_list]; simp [eqL, Tree.eq, Scalar.eq, edScript, Kind.ordered])).1
 
 /-! ### non-vacuity and concrete instances
 
